@@ -202,14 +202,14 @@ deriving Repr, DecidableEq, Inhabited
 def lh (n : Node) : Int := n.l.trunkHeight
 
 /-- the transactions of block `b` with their coinbase flags, as `ConfirmBlock` receives them -/
-def confirmTxs (e : Env) (b : Nat) : List (Nat × Bool) :=
+def confirmArgs (e : Env) (b : Nat) : List (Nat × Bool) :=
   (e.block b).txs.map (fun t => (t, (e.tx t).coinbase))
 
 /-- the node after the whole operation -/
 def runOp (e : Env) (n : Node) : Op → Node
   | .submit i => { n with s := (doTx e n.s (lh n) i).1 }
   | .confirm b =>
-    { n with l := (XV.Ledger.confirm n.l (e.block b).id ((e.block b).pre.getD 0) (confirmTxs e b)).1 }
+    { n with l := (XV.Ledger.confirm n.l (e.block b).id ((e.block b).pre.getD 0) (confirmArgs e b)).1 }
   | .play b => { n with s := (play e n.s (lh n) (e.block b)).1 }
   | .playMiner b => { n with s := (playForMiner e n.s (lh n) (e.block b)).1 }
   | .walk dest prune => { n with s := (walk e n.s (lh n) dest prune).1 }
